@@ -239,3 +239,32 @@ def encode_request_path(class_code, instance, attribute=b""):
     if attribute:
         path = path + encode_logical("attribute_id", attribute)
     return bytes([len(path) // 2]) + path
+
+
+def encode_port(port, link):
+    """reference encoder of one port segment: link is the link address bytes"""
+    if len(link) == 1:
+        return bytes([port]) + link
+    out = bytes([port | 0x10, len(link)]) + link
+    if len(out) % 2 == 1:
+        out = out + b"\x00"
+    return out
+
+
+def route_bytes(pairs):
+    """word count, reserved byte, port segments -- the route path of an Unconnected Send / Forward Open"""
+    path = b""
+    for port, link in pairs:
+        path = path + encode_port(port, link)
+    return bytes([len(path) // 2, 0]) + path
+
+
+def link_bytes(link):
+    """link address meant by a route component: slot number (0..255) -> one byte; dotted quad -> its ASCII text"""
+    if "." in link:
+        return link.encode()
+    return bytes([int(link)])
+
+
+def valid_tcp_port(n):
+    return 1 <= n and n <= 65534
